@@ -57,8 +57,8 @@ def strategy(tier):
         spec = draw(gen.dataset(max_inputs=1, clim=False, flavor=flavor, core_max=3, extra_max=1, allow_drop=False,
                                 max_members=3, allow_obsless=True, var_x=True, half_hours=True,
                                 other_pool=("temp", "wind", "precip", "qflag", "extra", "pop", "e_x", "p1x")))
-        spec["var"]["name"] = draw(st.sampled_from(["Temp", "Air temperature", "Precip 24h acc"]))
-        spec["var"]["units"] = draw(st.sampled_from(["K", "deg C", "m s-1", "%"]))
+        spec["var"]["name"] = draw(st.sampled_from(["Temp", "Air temperature", "Precip 24h acc", "Precipitation: 24h accumulated", "RH (00:00 UTC run)", "T2m", "wind speed 10 m # raw", "units: none"]))
+        spec["var"]["units"] = draw(st.sampled_from(["K", "deg C", "m s-1", "%", "g:kg", "m/s", "kg m-2 s-1", "1", "x0: 3"]))
         d = spec["inputs"][0]
         nrows = len(d["ti"]) * len(d["li"]) * len(d["si"])
         style = {
